@@ -117,3 +117,16 @@ def save_replay(prop, harness, failed_checks, vecs, playback_src, native):
             "how_to_replay": "cd /verif && ./check %s --replay %s" % (prop, path),
         }, fh, indent=1)
     return path
+
+
+def sys_replay(name):
+    """System-level native replay (whole real engine, release profile) of a search finding."""
+    cmd = ["cargo", "run", "--offline", "-q", "--release", "--manifest-path", os.path.join(VERIF, "replay", "Cargo.toml"), "--", "--sys", name]
+    env = dict(os.environ)
+    env.pop("RUSTFLAGS", None)
+    try:
+        p = subprocess.run(cmd, stdout=subprocess.PIPE, stderr=subprocess.STDOUT, text=True, errors="replace", timeout=900, env=env)
+    except subprocess.TimeoutExpired:
+        return None, "timed out"
+    lines = [l for l in p.stdout.splitlines() if l.startswith("SYS-") or "panicked" in l]
+    return p.returncode == 1, "\n".join(lines[-4:])
